@@ -233,7 +233,7 @@ def check_expectation(sc, o):
         why.append('run(on_error="raise") ended with %s' % o['ending'])
     if e.get('exc_type') and o.get('exc_type') != e['exc_type']:
         why.append('exception type %r, expected %r' % (o.get('exc_type'), e['exc_type']))
-    if e.get('fail_group') is not None and o.get('failidx') is not None:
+    if e.get('fail_group') is not None and o.get('failidx') is not None and sc.get('groups') is not None:
         g = sc['groups'][e['fail_group']]
         fp = o['parts'][o['failidx']]
         first = g.final_line
